@@ -49,6 +49,10 @@ def plan(tier, seed):
     for g in gammas:
         for sgn in (1, -1):
             specs.append({"name": f"density-g{g:g}{'+' if sgn > 0 else '-'}", "mode": "density", "gamma": g * sgn, "seed": seed, "n": 100000 if tier == "quick" else 2000000})
+    # the density clause for the adaptive driver too (range collapsed to one delta so that the law is known), at
+    # temperatures far from any default, and for the plain driver at a second temperature
+    for g, T, adaptive in ((1.0, 3000.0, True), (-5.0, 40.0, True), (5.0, 2500.0, False), (-1.0, 25.0, False)):
+        specs.append({"name": f"density-g{g:g}-T{T:g}-{'adaptive' if adaptive else 'plain'}", "mode": "density", "gamma": g, "T": T, "adaptive": adaptive, "seed": seed, "n": 100000 if tier == "quick" else 1000000})
     for j in range(8 if tier == "quick" else 32):
         specs.append({"name": f"hostile{j}", "mode": "hostile", "j": j, "seed": seed, "cases": 400 if tier == "quick" else 6000})
     return specs
@@ -191,7 +195,7 @@ def judge_step(rec, drv, pos0, pos1):
 
 
 # ----------------------------------------------------------------------------- workloads
-def make_fb(rng, n, forces, delta, T, power, adaptive=False, masses=None):
+def make_fb(rng, n, forces, delta, T, power, adaptive=False, masses=None, collapsed=False):
     from ase import Atoms
 
     from quansino.mc.fbmc import AdaptiveForceBias, ForceBias
@@ -208,7 +212,7 @@ def make_fb(rng, n, forces, delta, T, power, adaptive=False, masses=None):
     atoms.calc = Prescribed(energy=0.0, forces=lambda a: forces, extra=extra)
     seed = derive_seed("c13", int(rng.integers(1, 2**40)))
     if adaptive:
-        lo = float(np.min(delta)) * 0.5
+        lo = float(np.min(delta)) * (1.0 if collapsed else 0.5)
         drv = AdaptiveForceBias(atoms, min_delta=lo, max_delta=float(np.max(delta)), temperature=T, seed=seed)
     else:
         drv = ForceBias(atoms, delta=delta, temperature=T, seed=seed)
@@ -223,9 +227,9 @@ def run_density(spec, rec):
     from scipy.stats import kstest
 
     g = spec["gamma"]
-    rng = rng_for("C13d", spec["seed"], g)
+    rng = rng_for("C13d", spec["seed"], g, spec.get("T", 300.0), spec.get("adaptive", False))
     n = 200
-    T = 300.0
+    T = float(spec.get("T", 300.0))
     delta = 0.1
     kT = 8.617333262e-5 * T
     f = g * 2 * kT / delta
@@ -233,7 +237,7 @@ def run_density(spec, rec):
 
     def draw(m):
         forces = np.full((n, 3), f)
-        drv = make_fb(rng, n, forces, delta, T, None, masses=np.full(n, 12.0))
+        drv = make_fb(rng, n, forces, delta, T, None, masses=np.full(n, 12.0), adaptive=bool(spec.get("adaptive")), collapsed=True)
         zs = []
         for _ in range(max(1, m // (3 * n))):
             try:
